@@ -65,6 +65,19 @@ class LoopCtx:
         """v is an object that already exists (cannot alias anything allocated from now on)."""
         return z3.And(Val.is_VRef(v), Val.r(v) > 0, Val.r(v) < self.I.st.next_id)
 
+    @property
+    def spec(self):
+        """a specification context (class ids, quantifier helpers) for predicates shared with contracts"""
+        from .contract import SpecCtx
+        if getattr(self, "_spec", None) is None:
+            self._spec = SpecCtx(self.I, self.I.top, {}, self.pre)
+        return self._spec
+
+    def created_in_loop(self, v):
+        """v is an object created by an iteration of this loop (earlier ones: a reserved block of references;
+        the current one: whatever was allocated since)."""
+        return z3.And(Val.is_VRef(v), Val.r(v) >= self.region_lo, Val.r(v) < self.I.st.next_id)
+
     def iter_log(self):
         return self.I.st.log[self.iter_log_start:]
 
@@ -281,9 +294,18 @@ class StmtMixin:
         if tv != "ref":
             self.raise_("TypeError", self.anchor(node, "unpack"))
         cid = self.class_of(v, "unpack-class")
-        if self.is_host_class(cid):
-            res = self.host_op("iter", v, node, extra="unpack")
-            raise Unsupported("unpacking a host iterable")
+        if self.is_host_class(cid) or self.table.names.get(cid) in ("dict", "OrderedDict", "set", "frozenset", "bytes"):
+            if self.is_host_class(cid):
+                self.host_op("iter", v, node, extra="unpack")
+            # a host iterable: iterating runs host code (may raise); it yields exactly n items or the unpack fails
+            if not self.ctx.branch(z3.Bool("host_unpack_ok!%d" % self.ctx.pos), "host iterable has %d items" % n):
+                self.raise_("ValueError", self.anchor(node, "unpack"))
+            out = []
+            for i in range(n):
+                e = self.ctx.fresh("unpacked", Val)
+                self.assume_shape(e, ANY_SORT)
+                out.append(e)
+            return out
         nm = self.table.names[cid]
         if nm not in ("list", "tuple"):
             raise Unsupported("unpack of %s" % nm)
@@ -601,7 +623,7 @@ class StmtMixin:
             cid = self.class_of(it, "iter-class")
         if self.is_host_class(cid):
             self.host_op("iter", it, node)
-            raise Unsupported("iteration over a host iterable")
+            raise Unsupported("iteration over a host iterable (%s)" % (ast.unparse(node)[:60] if node is not None else "?"))
         nm = self.table.names[cid]
         r = Val.r(it)
         if nm in ("list", "tuple", "deque", "set", "frozenset"):
@@ -653,7 +675,21 @@ class StmtMixin:
             if what == "values":
                 return z3.Select(val, k)
             return interp.st.new_list([k, z3.Select(val, k)], "tuple")
-        return Seq("dict", n, element, r)
+        sq = Seq("dict", n, element, r)
+        sq.keys = keys
+
+        def pos():
+            """position of a key in the enumeration (the enumeration covers the whole domain); added on demand"""
+            if getattr(sq, "_pos", None) is None:
+                sq._pos = interp.ctx.fresh("dpos", z3.ArraySort(Val, I))
+                k = z3.Const("k!dpos", Val)
+                interp.ctx.assume(z3.ForAll([k], z3.Implies(z3.Select(has, k), z3.And(
+                    z3.Select(sq._pos, k) >= 0, z3.Select(sq._pos, k) < n, z3.Select(keys, z3.Select(sq._pos, k)) == k))))
+                i = z3.Int("i!dpos")          # ... and lists every key once
+                interp.ctx.assume(z3.ForAll([i], z3.Implies(z3.And(i >= 0, i < n), z3.Select(sq._pos, z3.Select(keys, i)) == i)))
+            return sq._pos
+        sq.pos = pos
+        return sq
 
     def s_For(self, st):
         if st.orelse:
@@ -679,8 +715,10 @@ class StmtMixin:
         idx0 = z3.IntVal(0)
         L = LoopCtx(self, self.frame, idx0, seq, pre, assigned, st)
         L.pre_locals = pre_locals
+        L.region_lo = self.st.next_id
         if spec is not None and spec.invariant is not None:
             self.ctx.oblige(self.obl_name("INV", label + "/init"), "INV", spec.invariant(L))
+            self.st.reserve_region()
         self.havoc_loop(st.body, spec.modifies(L) if (spec and spec.modifies) else (spec.modifies_kind if spec else None))
         for nm in assigned_names([ast.Assign(targets=[st.target], value=ast.Constant(value=None))]):
             self.frame.locals[nm] = self.ctx.fresh("hv_" + nm, Val)
